@@ -1,3 +1,3 @@
 SPECIFICATION Spec
-INVARIANTS M_C01 M_C02 M_C05 M_C06 M_C07 M_C15 M_C19 M_Harness
+INVARIANTS M_C01 M_C02 M_C05 M_C06 M_C07 M_C15 M_C16 M_C17 M_C19 M_Harness
 CHECK_DEADLOCK FALSE
